@@ -130,6 +130,28 @@ theorem C07_roundtrip_equal_partial (T : Tab) (hT : TabOk T) (R : RealSem) (fmt 
     ∃ q, fromUri T (toUri T fmt p) = .ok q ∧ PathEq T R q p :=
   ⟨_, C07_uri_roundtrip_partial T hT fmt p hs, path_eq hT R fmt p hs hn⟩
 
+/-- **… and the executable `==` says so.**  `pathEqB` is the executable model of `CIMInstanceName.__eq__`
+    (`_eq_name` on host / namespace / class name, `NocaseDict.__eq__` on the keybindings incl. `True == 1`, references
+    recursively) that the correspondence run compares with the real `==` on every generated pair; `E` carries
+    `float(a) == float(b)` and `CIMDateTime(a) == CIMDateTime(b)`.  For every safe path the re-parsed path `==` the
+    original, provided only that `E` is reflexive on datetimes and knows that the `.0` of the exponent fix keeps the value. -/
+theorem C07_roundtrip_eqB_partial (T : Tab) (hT : TabOk T) (E : EqTab) (fmt : Fmt) (p : Path)
+    (hs : PathSafe T fmt p) (hn : NoNaN p)
+    (hfix : ∀ r, isFloatRepr r = true → r ≠ "nan".toList → E.realSame (fixExp r) r = true)
+    (hd : ∀ s, E.dtSame s s = true) :
+    ∃ q, fromUri T (toUri T fmt p) = .ok q ∧ pathEqB T E q p = true := by
+  let R : RealSem := ⟨fun a b => E.realSame a b = true, hfix⟩
+  exact ⟨_, C07_uri_roundtrip_partial T hT fmt p hs,
+    pathEqB_of_pathEq (R := R) (fun _ _ h => h) hd (path_eq hT R fmt p hs hn)⟩
+
+/-- non-vacuity: with text equality for reals and datetimes the executable `==` holds on the demo round trip,
+    and it is not constantly true -/
+example : pathEqB asciiTab ⟨fun a b => a == b || b == "1e+16".toList, fun a b => a == b⟩
+    (normPath asciiTab .canonical demoP) demoQ = true := by decide +kernel
+example : pathEqB asciiTab ⟨fun a b => a == b, fun a b => a == b⟩ demoP
+    (.mk (some "ACME.com".toList) (some "Root/CimV2".toList) "CIM_Foo".toList (.cons "Name".toList (.str "a\"b".toList) .nil)) = false := by
+  decide +kernel
+
 /-- the hypothesis record is satisfiable -/
 example : RealSem := ⟨fun _ _ => True, fun _ _ _ => trivial⟩
 
@@ -204,6 +226,127 @@ example : PathOk asciiTab .cimobject demoCim := by
     ⟨head2, (by intro h; cases h), (by decide +kernel), (by decide +kernel), trivial, trivial⟩, trivial⟩
 example : toUri asciiTab .cimobject demoCim = "/root/cimv2:CIM_Foo.Name=\"a\\\"b\",Ref=\"/:CIM_Bar.X=TRUE\"".toList := by decide +kernel
 example : okIs (fromUri asciiTab (toUri asciiTab .cimobject demoCim)) (normPath asciiTab .cimobject demoCim) = true := by decide +kernel
+
+/-- **Every instance-path URI contains `=`**: a text without it is rejected with ValueError — for every character
+    table, no hypothesis.  (So a string key value without `=` needs no "does not read as a URI" side condition.) -/
+theorem C07_text_without_equals_is_no_uri (T : Tab) (s : Str) (h : '=' ∉ s) : fromUri T s = .error .valueError :=
+  notUri_of_no_eq T h
+
+/-- **Datetime keys need no side condition.**  Whenever `CIMDateTime(s)` accepts the text (`dtAccepts`, the model of
+    the constructor's acceptance test), the text consists of digits and `* . + - :`, hence contains no quote, backslash,
+    newline or `=`, is not itself a URI, and the `.dt s` clause of `PathSafe` / `PathOk` holds: the earlier hypotheses
+    "no quote/backslash/newline" and "not a URI" of that clause are discharged. -/
+theorem C07_datetime_value_safe (T : Tab) (fmt : Fmt) (s : Str) (h : dtAccepts s = true) :
+    (∀ c ∈ s, c ≠ '"' ∧ c ≠ '\\' ∧ c ≠ '\n' ∧ c ≠ '=') ∧ NotUri T s ∧ ValSafe T fmt (.dt s) ∧ ValOk T fmt (.dt s) :=
+  ⟨fun c hc => dtChar_props (dtAccepts_chars h c hc),
+   notUri_of_no_eq T (fun hm => (dtChar_props (dtAccepts_chars h _ hm)).2.2.2 rfl),
+   (dt_safe_of_accepts T fmt h).1, (dt_safe_of_accepts T fmt h).2⟩
+
+example : dtAccepts "20140924193040.654321+120".toList = true ∧ dtAccepts "00000183132542.234***:000".toList = true ∧
+    dtAccepts "20140924193040.654321+120x".toList = false ∧ dtAccepts "20140231193040.654321+120".toList = false := by decide +kernel
+
+/-- **What the parser returns is a well-formed path.**  For every text: if `from_wbem_uri` returns a path, then at
+    every nesting level its key names are pairwise different after casefold (the NocaseDict invariant `PathWF`) —
+    duplicate and case-duplicate keys in the text (`k=1,K=2,k=3`) are merged by the `dict` / NocaseDict steps.
+    Hence the hypothesis `PathWF` of `C07_canonical_respects_eq` is automatic for parsed paths. -/
+theorem C07_parsed_path_wf (T : Tab) (s : Str) (p : Path) (h : fromUri T s = .ok p) : PathWF T p :=
+  fromUriF_wf T _ s p h
+
+theorem C07_canonical_respects_eq_of_parsed (T : Tab) (hfl : ∀ s, T.foldS (T.lowerS s) = T.foldS s)
+    (s : Str) (p q : Path) (hp : fromUri T s = .ok p) (h : PathEquiv T p q) :
+    toUri T .canonical p = toUri T .canonical q :=
+  C07_canonical_respects_eq T hfl p q h (C07_parsed_path_wf T s p hp)
+
+/-- non-vacuity: duplicate keys are merged (last value, first position, last spelling) -/
+example : okIs (fromUri asciiTab "C.k=1,j=TRUE,K=2".toList)
+    (.mk none none ['C'] (.cons ['K'] (.int 2) (.cons ['j'] (.bool true) .nil))) = true := by decide +kernel
+example : okIs (fromUri asciiTab "C.k=1,k=3".toList) (.mk none none ['C'] (.cons ['k'] (.int 3) .nil)) = true := by decide +kernel
+
+/-! ### glue around the URI functions -/
+
+/-- **Format argument.**  `to_wbem_uri(format=name)` accepts exactly the four names extracted from the source
+    (each selecting its format) and raises ValueError — nothing else — for every other string. -/
+theorem C07_format_argument_validated (T : Tab) (p : Path) :
+    toWbemUri T "standard" p = .ok (toUri T .standard p) ∧ toWbemUri T "canonical" p = .ok (toUri T .canonical p) ∧
+    toWbemUri T "cimobject" p = .ok (toUri T .cimobject p) ∧ toWbemUri T "historical" p = .ok (toUri T .historical p) ∧
+    (∀ name, name ∉ Pywbem.Generated.uriFormats → toWbemUri T name p = .error .valueError) ∧
+    (∀ name e, toWbemUri T name p = .error e → e = .valueError) := by
+  refine ⟨rfl, rfl, rfl, rfl, ?_, ?_⟩
+  · intro name h; simp [toWbemUri, fmtOfName_unknown name h]
+  · intro name e h
+    unfold toWbemUri at h
+    cases hf : fmtOfName name with
+    | ok f => simp [hf] at h
+    | error e' => simp [hf] at h; subst h; exact fmtOfName_only_valueError name e' hf
+
+/-- **`str(p)` is the historical format** and therefore round-trips under the same conditions -/
+theorem C07_str_roundtrip_partial (T : Tab) (hT : TabOk T) (p : Path) (hs : PathSafe T .historical p) :
+    pathStr T p = toUri T .historical p ∧ fromUri T (pathStr T p) = .ok (normPath T .historical p) :=
+  ⟨rfl, C07_uri_roundtrip_partial T hT .historical p hs⟩
+
+/-- **CIMObject header** (`get_cimobject_header`): a string is passed through, an instance path / class path is printed in
+    the `cimobject` format — which the parser accepts, finding no host (partial: F1, F2 excluded by `PathOk`) — and
+    any other argument is a TypeError. -/
+theorem C07_cimobject_header_partial (T : Tab) (hT : TabOk T) :
+    (∀ s, cimObjectHeader T (.text s) = .ok s) ∧
+    (∀ p, PathOk T .cimobject p → ∃ u, cimObjectHeader T (.inst p) = .ok u ∧
+        fromUri T u = .ok (normPath T .cimobject p) ∧ (normPath T .cimobject p).host = none) ∧
+    (∀ p : ClassPath, HeadOk T .cimobject p.host p.ns p.cls → ∃ u, cimObjectHeader T (.cls p) = .ok u ∧
+        fromUriClass T u = .ok { host := none, ns := p.ns, cls := p.cls }) ∧
+    cimObjectHeader T .other = .error .typeError := by
+  refine ⟨fun _ => rfl, ?_, ?_, rfl⟩
+  · intro p hs
+    refine ⟨_, rfl, C07_uri_roundtrip_all_formats_partial T hT .cimobject p hs, ?_⟩
+    cases p; simp [normPath, Path.host, parsedHost]
+  · intro p hs
+    refine ⟨_, rfl, ?_⟩
+    have := C07_class_roundtrip_all_formats_partial T hT .cimobject p hs
+    have hmap : p.ns.map (caseOf T .cimobject) = p.ns := by cases p.ns <;> simp [caseOf]
+    simpa [parsedHost, caseOf, hmap] using this
+
+/-- **Namespace setter** (`namespace.strip('/')` in both classes): the stored namespace never starts or ends with a
+    slash, the setter is idempotent, and a namespace without outer slashes is stored unchanged. -/
+theorem C07_namespace_setter (ns : Option Str) :
+    (∀ n, nsSetter ns = some n → n.head? ≠ some '/' ∧ n.getLast? ≠ some '/') ∧
+    nsSetter (nsSetter ns) = nsSetter ns ∧
+    (∀ n, ns = some n → n.head? ≠ some '/' → n.getLast? ≠ some '/' → nsSetter ns = ns) := by
+  refine ⟨?_, ?_, ?_⟩
+  · intro n h
+    cases ns with
+    | none => simp [nsSetter] at h
+    | some m => simp [nsSetter] at h; subst h; exact stripSlashes_ends m
+  · cases ns with
+    | none => rfl
+    | some m =>
+      simp only [nsSetter, Option.map_some]
+      rw [stripSlashes_id (stripSlashes_ends m).1 (stripSlashes_ends m).2]
+  · intro n h h1 h2; subst h; simp [nsSetter, stripSlashes_id h1 h2]
+
+/-- **Constructor**: whatever key list is passed (names equal up to case included), the constructed path satisfies
+    the NocaseDict invariant on its keybindings and its namespace has no outer slashes. -/
+theorem C07_constructor_invariants (T : Tab) (cls : Str) (kbs : List (Str × KeyVal)) (host ns : Option Str) :
+    (foldNames T (mkPath T cls kbs host ns).keys).Nodup ∧
+    (∀ n, (mkPath T cls kbs host ns).ns = some n → n.head? ≠ some '/' ∧ n.getLast? ≠ some '/') := by
+  constructor
+  · simp only [mkPath, Path.keys, foldNames]
+    rw [names_ofList, List.map_map]
+    exact nc_foldl_nodup kbs [] (by simp)
+  · intro n h; exact (C07_namespace_setter ns).1 n h
+
+example : nsSetter (some "//root/cimv2/".toList) = some "root/cimv2".toList ∧ nsSetter (some "/".toList) = some [] ∧
+    nsSetter none = none := by decide
+example : pathBeq (mkPath asciiTab ['C'] [(['k'], .int 1), (['j'], .bool true), (['K'], .int 2)] none (some "/n/".toList))
+    (.mk none (some ['n']) ['C'] (.cons ['K'] (.int 2) (.cons ['j'] (.bool true) .nil))) = true := by decide +kernel
+
+/-- **The character-table hypotheses are per-character facts.**  `TabOk` (used by every round-trip theorem) follows from
+    five statements about single characters; the harness checks exactly these five for all 1 112 064 code points of the
+    running Python on every run (`tabok_exhaustive` in the evidence), so `TabOk` is no longer an assumption about the
+    generator's alphabet only. -/
+theorem C07_tabOk_of_char_facts (T : Tab) (h : TabOkChar T) : TabOk T := TabOk.of_char h
+
+example : TabOkChar asciiTab :=
+  ⟨fun c => by simp [asciiTab, lowerAscii_idem], fun c => by simp [asciiTab, lowerAscii_idem],
+   asciiTabOk.not_word, asciiTabOk.digit_word, asciiTabOk.lower_ascii⟩
 
 /-! non-vacuity: a path with every value type, a nested reference, host with port and hyphen, two-level namespace -/
 def demoSafe : Path := .mk (some "my-host.acme.com:5989".toList) (some "root/cimv2".toList) "CIM_Foo".toList
